@@ -69,7 +69,8 @@ func Analyze(ctx context.Context, scope *ReferenceScope, view *View, fn parser.A
 		}
 
 		if _, ok := fn.Args[0].(parser.AllColumns); ok {
-			fn.Args[0] = parser.NewIntegerValue(1)
+			// fn is a copy, but its argument slice is shared with the syntax tree: do not edit it in place
+			fn.Args = []parser.QueryExpression{parser.NewIntegerValue(1)}
 		}
 	} else {
 		if err := udfn.CheckArgsLen(fn, fn.Name, len(fn.Args)-1); err != nil {
